@@ -632,13 +632,13 @@ fn mix64(x: &mut u64) -> u64 {
 /// the ones of DESIGN.md 3.3; `allow` filters block kinds by name.
 pub fn catalogue(seed: u64, count: usize, allow: &[&str]) -> Vec<String> {
     let blocks: &[(&str, &[&str])] = &[
-        ("EL", &["U:CAL:ELECTRICIDAD", "U:ACS:ELECTRICIDAD", "U:ILU:ELECTRICIDAD", "2/U:REF:ELECTRICIDAD"]),
+        ("EL", &["U:CAL:ELECTRICIDAD", "U:ACS:ELECTRICIDAD", "U:ILU:ELECTRICIDAD", "2/U:REF:ELECTRICIDAD", "U:VEN:ELECTRICIDAD", "-2/U:ILU:ELECTRICIDAD;-2/U:VEN:ELECTRICIDAD", "9/U:REF:ELECTRICIDAD;9/U:CAL:ELECTRICIDAD"]),
         ("NEPB", &["U:NEPB:ELECTRICIDAD", "U:NEPB:GASNATURAL", "U:NEPB:EAMBIENTE"]),
         ("PV", &["P:EL_INSITU", "2/P:EL_INSITU", "P:EL_INSITU;3/P:EL_INSITU"]),
         ("CHP", &["P:EL_COGEN;U:COGEN:GASNATURAL", "1/P:EL_COGEN;1/U:COGEN:BIOMASA", "P:EL_COGEN;U:COGEN:GASNATURAL;U:COGEN:BIOMASA"]),
         ("HP", &["1/U:ACS:ELECTRICIDAD;1/U:ACS:EAMBIENTE", "2/U:CAL:EAMBIENTE;2/P:EAMBIENTE", "0/P:EAMBIENTE;3/U:CAL:EAMBIENTE", "U:ACS:EAMBIENTE;P:EAMBIENTE;U:NEPB:EAMBIENTE"]),
         ("ST", &["U:ACS:TERMOSOLAR", "U:ACS:TERMOSOLAR;P:TERMOSOLAR", "-1/U:ACS:TERMOSOLAR;P:TERMOSOLAR"]),
-        ("FUEL", &["U:CAL:GASNATURAL", "U:ACS:BIOMASA", "U:CAL:RED1", "U:ACS:GASOLEO;U:CAL:GASOLEO"]),
+        ("FUEL", &["U:CAL:GASNATURAL", "U:ACS:BIOMASA", "U:CAL:RED1", "U:ACS:GASOLEO;U:CAL:GASOLEO", "U:CAL:RED2", "U:ACS:BIOMASADENSIFICADA", "U:CAL:GLP;U:NEPB:GLP", "U:CAL:CARBON;U:ACS:BIOCARBURANTE"]),
         ("AUX", &["4/U:CAL:GASNATURAL;4/X", "5/U:CAL:GASNATURAL;5/U:ACS:GASNATURAL;5/X;5/~O:CAL;5/~O:ACS", "6/U:REF:ELECTRICIDAD;6/U:CAL:ELECTRICIDAD;6/X;6/O:REF;6/~O:CAL"]),
         ("DEM", &["D:ACS", "D:CAL;D:REF"]),
     ];
